@@ -455,7 +455,40 @@ def run_batch(part, unit):
                                                dict(lens=unit['lens'], Hy=Hy, batch=idx, ray=i, quantity=key, variant=unit['variant']),
                                                observed=a_, expected=b_, tol=tol)
                     part.outcome(unit['lens'], Hy, how, tuple(idx))
-    part.sample(dict(lens=unit['lens'], batches='all 15 subsets of 4 rays x 2 fields x {trace_generic, trace}'))
+    # ---- per-ray wavelength arrays: every sub-batch of 4 rays with 3 different wavelengths against each ray traced alone
+    WL = np.array([0.4861, 0.5876, 0.6563, 0.5876])
+    for Hy in (0.0, 1.0):
+        PX = np.array([0.0, 0.4, -0.7, 0.1])
+        PY = np.array([0.3, 0.5, 0.2, -0.9])
+        try:
+            alone = [rays_blob(o.trace_generic(0.0, Hy, float(PX[i]), float(PY[i]), float(WL[i]))) for i in range(4)]
+            o.trace_generic(np.zeros(2), np.full(2, Hy), PX[:2].copy(), PY[:2].copy(), WL[:2].copy())
+        except Exception:
+            part.count('wavelength-array-not-accepted')
+            break
+        part.transitions += 4
+        for k in range(1, 5):
+            for sub in itertools.combinations(range(4), k):
+                idx = list(sub)
+                wl = WL[idx].copy()
+                r = o.trace_generic(np.zeros(k), np.full(k, Hy), PX[idx].copy(), PY[idx].copy(), wl)
+                part.transitions += 1
+                part.evals += 1
+                part.count('cmp:wavelength-array-batches')
+                if not np.array_equal(wl, WL[idx]):
+                    part.violation(PID, 'caller-arrays-not-modified', 'Optic.trace_generic', f'lens={unit["lens"]},wavelength-array',
+                                   dict(lens=unit['lens'], Hy=Hy, batch=idx), observed=list(wl), expected=list(WL[idx]))
+                rb = rays_blob(r)
+                for j, i in enumerate(idx):
+                    for key in rb:
+                        a_, b_ = float(np.asarray(rb[key])[j]), float(np.asarray(alone[i][key])[0])
+                        same = (math.isnan(a_) and math.isnan(b_)) or abs(a_ - b_) <= tol
+                        if not same:
+                            part.violation(PID, 'ray-independent-of-its-batch', 'Optic.trace_generic', f'lens={unit["lens"]},wavelength-array',
+                                           dict(lens=unit['lens'], Hy=Hy, batch=idx, ray=i, quantity=key, wavelengths=list(WL[idx]),
+                                                variant=unit['variant']), observed=a_, expected=b_, tol=tol)
+                part.outcome(unit['lens'], Hy, 'trace_generic-wavelength-array', tuple(idx))
+    part.sample(dict(lens=unit['lens'], batches='all 15 subsets of 4 rays x 2 fields x {trace_generic, trace, trace_generic with a wavelength array}'))
 
 
 def run_unit(unit):
